@@ -37,7 +37,7 @@ CLAIMED = {
          "Non-finite samples are C03's matter and skipped here."),
  "C08": ("model_checking", "exhaustive enumeration of all weight vectors up to a length over a per-type alphabet; for small integer sums every (column, threshold) execution of sample(), obtained by environment probing, with an exact counting identity",
          "F", "DESIGN.md §5-C08",
-         "13 weight types x all vectors of length <= 5 (quick) over {0,1,2,3,MAX/len-1,MAX/len,MAX/len+1,-1 | float specials} plus structured vectors of length 31..300: constructor verdict per the documentation, no panic, weights() reconstructs the input (exactly for integers), zero-weight indices never returned, a clone samples identically, and for integer sums <= 128 the identity #{(column, threshold) : sample = i} = len * w_i over ALL pairs.",
+         "13 weight types x all vectors of length <= 5 (quick) over {0,1,2,3,MAX/len-1,MAX/len,MAX/len+1,-1 | float specials incl. MAX/len and its predecessor} plus structured vectors of length 31..300: constructor verdict per the documentation, no panic, weights() reconstructs the input (exactly for integers), zero-weight indices never returned, a clone samples identically, and for integer sums <= 128 the identity #{(column, threshold) : sample = i} = len * w_i over ALL pairs.",
          "For integer sums above the budget sampling is checked for validity only (exactness then rests on weights()); float proportionality on a 256-point threshold lattice per column."),
  "C09": ("model_checking", "explicit-state breadth-first search over all operation histories up to a depth on the real WeightedTreeIndex, with a reference model (plain weight list, i128 arithmetic) compared in every state and on every transition",
          "H", "DESIGN.md §3.3, §5-C09",
